@@ -158,6 +158,10 @@ pub struct World<'a> {
     pub in_reopen: bool,
     /// kernel events of the flush/sync steps (C16 derives its fault points from them)
     pub sync_events: Vec<(u32, KOp, String, u64, u64)>,
+    /// (step, map, digests of the three written images) at every crash point
+    pub crash_digests: Vec<(u32, usize, [u64; 3])>,
+    /// child mode of the crash twin: stop (and wait to be killed) after this step
+    pub stop_after_step: Option<u32>,
 }
 
 pub type StepResult = Result<(), Stop>;
@@ -219,6 +223,8 @@ impl<'a> World<'a> {
             only_updates: false,
             in_reopen: false,
             sync_events: Vec::new(),
+            crash_digests: Vec::new(),
+            stop_after_step: None,
         }
     }
 
